@@ -35,7 +35,70 @@ def equal_stamp_witness(clause, lines):
     return all(any(ts2 == ts for (ts2, _) in logged[:i]) for (i, ts, _) in missing)
 
 
-CLASSIFIERS = {"c12_equal_timestamps": equal_stamp_witness}
+def _file_names(lines):
+    """file names (seconds) the witness shows: created by rotations, listed, or the `current` of a replay (now + 1 s)"""
+    names = set()
+    for l in lines:
+        pre, _, post = l.partition(" | ")
+        w, o = pre.split(), post.split()
+        if not w:
+            continue
+        if w[0] in ("rotate", "stop") and o and o[0] != "-":
+            names.add(int(o[0]))
+        if w[0] == "relay" and len(o) >= 3 and o[2] != "-":
+            names.add(int(o[2]))
+        if w[0] == "ls" and o and o[0] != "-":
+            names.update(int(x.split(":")[0]) for x in o[0].split(","))
+        if w[0] == "replay":
+            names.add(int(w[1]) // 1000000 + 1)
+        if w[0] == "probe":
+            names.add(int(w[4]) // 1000000 + 1)
+    return names
+
+
+def replay_setpos_witness(clause, lines, kind="replay_file_name"):
+    """F-C12c: every confirmation beyond the received position in the witness was sent INSIDE ReplayLog, directly after a
+    replayed message, and carries the name (whole seconds) of a log file being replayed.  A too-large position from the
+    timer, or any other value, is not of this shape."""
+    if clause != "confirmation_not_beyond_received" or kind != "replay_file_name":
+        return False
+    names = _file_names(lines)
+    peers = {"A": 0, "B": 1, "C": 2}
+    found = False
+    prev_pos = None
+    for l in lines:
+        pre, _, post = l.partition(" | ")
+        w, o = pre.split(), post.split()
+        if not w or not o:
+            continue
+        pos = [int(x) for x in o[-1].split(",")] if "," in o[-1] else None
+        if w[0] == "timer" and len(o) >= 5:
+            before = prev_pos or [0] * 6
+            for p, out in enumerate(o[1:4]):
+                if any(it.startswith("L") and int(it[1:]) > before[2 * p + 1] for it in out.split(",")):
+                    return False
+        if w[0] in ("replay", "probe") and len(o) >= 3 and pos:
+            p = peers[w[2] if w[0] == "replay" else w[5]]
+            rpos = pos[2 * p + 1]                  # ReplayLog does not touch the positions
+            items = o[1].split(",")
+            for i, it in enumerate(items):
+                if it.startswith("L") and int(it[1:]) > rpos:
+                    v = int(it[1:])
+                    if v % 1000000 != 0 or v // 1000000 not in names or i == 0 or not items[i - 1].startswith("M"):
+                        return False
+                    found = True
+        if pos:
+            prev_pos = pos
+    return found
+
+
+def two_node_witness(clause, lines, kind=""):
+    """F-C12c seen from both ends: the only acknowledgements node Y handled before its own ReplayLog are the SetLogPosition
+    messages node X's ReplayLog had queued (the check records that provenance itself)."""
+    return clause == "two_node_loss" and kind == "setpos_from_peer_replay"
+
+
+CLASSIFIERS = {"c12_equal_timestamps": equal_stamp_witness, "c12_replay_setpos_file_name": replay_setpos_witness}
 
 
 class C12(StdCheck):
@@ -43,7 +106,8 @@ class C12(StdCheck):
     required_theorems = ["replay_exact_partial", "replay_exact_counterexample", "replay_exact", "confirmed_not_replayed",
                          "receiver_ignores_old", "position_monotone", "cleanup_safe", "truncation_tolerant",
                          "damage_tolerant", "survives_restart", "relay_persists", "rel_init", "step_meets_spec",
-                         "model_trace_meets_spec"]
+                         "model_trace_meets_spec_partial", "timer_confirmation_sound", "confirmation_counterexample",
+                         "premature_confirmation_counterexample"]
     technique = ("Lean 4 proof about an executable transcription of PersistMessage/RotateLogFile/ReplayLog/the clean-up timer and "
                  "the receiver's filter (fold invariants over the records, the pass structure of ReplayLog, C20's netstring "
                  "prefix theorem for damaged files); correspondence by differential execution of a real in-process ApiListener "
@@ -64,7 +128,7 @@ class C12(StdCheck):
                   "record is an oracle input (the bytes PersistMessage wrote are handed to the model, which checks the framing and "
                   "decodes by table); whether the peer's zone may see an object is read from the implementation (CanAccessObject is C13) "
                   "and cross-checked against the topology in the spec. The exactness theorem needs strictly increasing timestamps: "
-                  "with equal stamps the code loses events (F-C12a, known finding, kernel-checked counterexample). A crash of the real code in any operation is reported by the harness as an observation (`<op> | DIED <signal>`) and fails the clause no_crash with the operation sequence as replay.")
+                  "with equal stamps the code loses events (F-C12a, known finding, kernel-checked counterexample). The whole-trace theorem covers every clause except confirmation_not_beyond_received, which the code violates inside ReplayLog (F-C12c, known finding: kernel-checked counterexamples for the clause and for the loss between two nodes; the timer's confirmations are proved sound); the check also runs the two-node schedule on two real node processes, shuttling the queued messages itself. A crash of the real code in any operation is reported by the harness as an observation (`<op> | DIED <signal>`) and fails the clause no_crash with the operation sequence as replay.")
     trusted_base = [
         "modelled, not verified: JSON encoding of a record (oracle bytes + table decode), Zone::CanAccessObject (oracle bits), "
         "Boost.Asio strands delivering posted sends in order, the file system (rename/unlink/append as the model says)",
@@ -74,7 +138,7 @@ class C12(StdCheck):
     ]
     assumptions = ["timestamps are non-negative µs integers, exact in binary64", "one endpoint per non-local zone",
                    "the virtual clock advances by >= 1 µs per relayed event except in the named equal-stamp case"]
-    rule = ("1 named equal-timestamp case; 1 named regression case with a `null` record in the first of two files (F-C12b, fixed); 3 named receiver cases (messages with ts equal to the recorded position and 1 µs around it, also across crash and stop restarts); 2 (thorough 5) three-file logs cut at EVERY byte offset of every file followed by ReplayLog; "
+    rule = ("two real nodes (X replays first, Y handles X's queue before / after its own ReplayLog); 1 named equal-timestamp case; 1 named regression case with a `null` record in the first of two files (F-C12b, fixed); 3 named receiver cases (messages with ts equal to the recorded position and 1 µs around it, also across crash and stop restarts); 2 (thorough 5) three-file logs cut at EVERY byte offset of every file followed by ReplayLog; "
             "1200 (thorough 6000) seeded random cases of 8..38 (..58) operations over relay (6 kinds of security object) / connect / "
             "disconnect / ReplayLog / rotate / timer / acknowledge / receive (two thirds of them at the recorded remote position -1/0/+1 µs) / stop / crash (with byte loss) / start / object removal / "
             "counter preset 49998..50000 / permanent and temporary damage with random bytes, 3 peers with log_duration from "
@@ -131,7 +195,8 @@ class C12(StdCheck):
         groups = {}
         for l in fails:
             kv = core.parse_kv(l)
-            key = ("spec", kv.get("clause", "?")) if l.startswith("SPECFAIL") else ("corr", kv.get("op", "observation"))
+            key = (("spec", kv.get("clause", "?") + (" kind=" + kv["kind"] if "kind" in kv else "")) if l.startswith("SPECFAIL")
+                   else ("corr", kv.get("op", "observation")))
             try:
                 case = case_upto(int(kv["line"]))
             except (KeyError, ValueError):
@@ -142,11 +207,14 @@ class C12(StdCheck):
         n_corr = 0
         # spec clauses first (they carry the concrete failing input), then disagreements
         for key in sorted(groups, key=lambda k: (k[0] != "spec", k[1])):
-            cands = sorted(groups[key], key=lambda c: c[0])[:self.max_shrunk]
+            recorded_shape = key == ("spec", "confirmation_not_beyond_received kind=replay_file_name")
+            cands = sorted(groups[key], key=lambda c: c[0])[:1 if recorded_shape else self.max_shrunk]
             for _, case, l in cands:
                 if key[0] == "spec":
+                    clause, _, kind = key[1].partition(" kind=")
                     shown = self.shrink(harness, driver, case, "SPECFAIL", "clause=" + key[1])
-                    res.spec_failures.append(runner.Finding("spec", f"spec:{self.prop}:{key[1]}", shown, {"driver": l}))
+                    what = f"spec:{self.prop}:{clause}" + (":" + kind if kind and not recorded_shape else "")
+                    res.spec_failures.append(runner.Finding("spec", what, shown, {"driver": l}, {"kind": kind}))
                 else:
                     if n_corr >= self.max_shrunk:
                         break
@@ -159,16 +227,90 @@ class C12(StdCheck):
         res = super().correspondence(tier, seed, harness, driver)
         # the generic flow reports the FIRST finding of a clause: a witness of the recorded shape (F-C12a) must never
         # stand in front of a different failure of the same clause
-        res.spec_failures.sort(key=lambda f: bool(equal_stamp_witness(f.what.split(":")[-1], [l for l in f.case_lines if l.strip()])))
+        self.two_node(res, harness)
+        res.spec_failures.sort(key=lambda f: self._recorded_shape(f))
         return res
+
+    def _recorded_shape(self, f):
+        clause = f.what.split(":")[2] if f.what.count(":") >= 2 else ""
+        lines = [l for l in f.case_lines if l.strip()]
+        kind = f.classifier_data.get("kind", "")
+        try:
+            return bool(equal_stamp_witness(clause, lines) or replay_setpos_witness(clause, lines, kind or "replay_file_name")
+                        or two_node_witness(clause, lines, kind))
+        except (ValueError, IndexError, KeyError):
+            return False
+
+    # --- Q-C12c / F-C12c with two real nodes: X = endpoint aaa, Y = endpoint zzz of the same zone, this side shuttles the queues
+    def two_node(self, res, harness):
+        T = 1000000 * 10 ** 6
+
+        def run(name, ops):
+            f = self.work("two_node_" + name + ".ops")
+            with open(f, "w") as fh:
+                fh.write("\n".join(ops) + "\n")
+            rc, out = core.run([harness, "ops", f])
+            if rc != 0:
+                raise core.TieBroken("harness:c12:two-node", out[-2000:])
+            return [l for l in out.splitlines() if " | " in l or l.startswith("C ")]
+
+        def replay_out(lines, idx=0):
+            outs = [l.split(" | ")[1].split()[1] for l in lines if l.startswith("replay")]
+            return [] if not outs or outs[idx] == "-" else outs[idx].split(",")
+
+        def shuttle(items):          # what the receiving node does with the sender's queue, in order
+            ops, from_replay_setpos = [], 0
+            for it in items:
+                if it.startswith("M"):
+                    ops.append("recv A " + it.split("@")[1])
+                elif it.startswith("L"):
+                    ops.append("ack A " + it[1:])
+                    from_replay_setpos += 1
+            return ops, from_replay_setpos
+
+        x = run("X", [f"C 1 {T} 0 86400 86400 86400", f"relay {T + 1} 101 -", "conn A", f"replay {T + 1000000} A"])
+        x_items = replay_out(x)
+        sh, n_setpos = shuttle(x_items)
+        ybase = [f"C 1 {T} 1 86400 86400 86400", f"relay {T + 500000} 201 -", f"relay {T + 700000} 202 -"]
+        logged = {f"M201@{T + 500000}", f"M202@{T + 700000}"}
+        # S0: Y's SyncClient reaches ReplayLog before X's replayed messages are handled; S1: after (both happen in production)
+        y0 = run("Y0", ybase + ["conn A", f"replay {T + 1000100} A"] + sh)
+        y1 = run("Y1", ybase + ["conn A"] + sh + [f"replay {T + 1000100} A", "disc A", f"timer {T + 9000000}", "conn A",
+                                                  f"replay {T + 20000000} A"])
+        got0 = set(replay_out(y0)) & logged
+        got1 = (set(replay_out(y1, 0)) | set(replay_out(y1, 1))) & logged
+        res.extra["two_node"] = {"x_replay_queue": x_items, "y_logged": sorted(logged), "delivered_if_y_replays_first": sorted(got0),
+                                 "delivered_if_x_replay_is_handled_first": sorted(got1)}
+        res.evaluations += len(x) + len(y0) + len(y1)
+        if got0 != logged or got1 != logged:
+            kind = "setpos_from_peer_replay" if (got0 == logged and n_setpos > 0 and
+                                                 all(o.startswith(("recv", "ack")) for o in sh)) else "other"
+            res.spec_failures.append(runner.Finding(
+                "spec", f"spec:{self.prop}:two_node_loss", x + y1,      # case 1: node X; case 2: node Y, X's queue handled before Y's own ReplayLog
+                {"lost": sorted(logged - got1), "lost_when_y_first": sorted(logged - got0)}, {"kind": kind}))
+
+    def replay(self, path, harness, driver):
+        import json
+        data = json.load(open(path))
+        if str(data.get("what", "")).endswith("two_node_loss"):
+            res = runner.Result()
+            self.two_node(res, harness)
+            print(json.dumps(res.extra["two_node"], indent=1))
+            return not res.spec_failures
+        return super().replay(path, harness, driver)
 
     def matches_known(self, entry, finding):
         fn = CLASSIFIERS.get(entry.get("classifier"))
         if fn is None or finding.kind != "spec":
             return False
         clause = finding.what.split(":")[2] if finding.what.count(":") >= 2 else ""
+        kind = finding.classifier_data.get("kind", "")
+        lines = [l for l in finding.case_lines if l.strip()]
         try:
-            return bool(fn(clause, [l for l in finding.case_lines if l.strip()]))
+            if fn is equal_stamp_witness:
+                return bool(fn(clause, lines))
+            # F-C12c: the in-replay confirmation itself, or its consequence between two nodes
+            return bool(replay_setpos_witness(clause, lines, kind or "replay_file_name") or two_node_witness(clause, lines, kind))
         except (ValueError, IndexError, KeyError):
             return False
 
